@@ -29,6 +29,10 @@ package format
 //@ func detectHTMLMagic results (r)
 //@   property C20, C02
 //@   flags pure
+// the signatures are looked for in the whole buffer that was sniffed (an XHTML root element may follow a long prolog:
+// the "<?xml ... <html" rule searches 500 bytes)
+//@   callsite ToUpper(s) requires whole_sniffed_buffer_is_searched: len(s) == len(data)
+//@   callsite Contains(h, n) requires xhtml_root_searched_in_500_bytes: len(h) == (len(upper) < 500 ? len(upper) : 500)
 //@   ensures blank: (forall k int :: {data[k]} 0 <= k && k < len(data) ==> (data[k] == ' ' || data[k] == 9 || data[k] == 10 || data[k] == 13)) ==> !r
 //@   loop 0:
 //@     invariant 0 <= start && start <= len(data)
